@@ -66,6 +66,16 @@ CLAIMED = {
    note="Trusted: Coq kernel; Discover.v hand model; Go's append semantics modelled (growth policy abstracted); the verif hook file only re-exports the unexported handler.",
    technique="Coq proof over an explicit slice/heap model + exhaustive small-universe run of the real handler",
    design="3/C20"),
+ "C14": dict(
+   text="Machine-checked proof over the client model, for EVERY reply byte string: Send returns a payload only if the reply decodes to a response with batch count 1, exactly one item, the requested operation and status Success, and then it is that item's payload (C14_payload_only_for_matching_success, C14_judge_iff); a server error carries the item's reason and message and arises only from such an item with another status (C14_server_error); not connected -> error (C14_not_connected); an unencodable payload -> error with nothing sent (C14_unencodable_payload); DiscoverVersions returns versions only from a Discover Versions Response payload - the checked assertion (C14_discover_versions); deadlines armed iff configured around each exchange (C14_client_deadlines). 'Never panics' is decided by the tie: the real Client runs over loopback TLS against a scripted peer replying with every combination of batch count, item count, operation, status, reason, message, payload present/absent, their mutations, truncations, garbage and no reply; result and the bytes the peer received are compared with the extracted model.",
+   note="Trusted: Coq kernel; Client.v hand model tied by correspondence; codec model for decoding replies; crypto/tls transport. The end-to-end clause (client against this package's Server) follows from C01 round trip + C07/C08 and is exercised by the session and TLS suites rather than stated as one theorem.",
+   technique="Coq proof of the client decision table + real Client against a scripted TLS peer",
+   design="3/C14"),
+ "C16": dict(
+   text="Machine-checked proof over the regenerated assignments of DefaultServerTLSConfig / DefaultClientTLSConfig (C16_defaults: MinVersion TLS 1.2, RequireAndVerifyClientCert; nothing that weakens verification) and an acceptance specification of crypto/tls: for EVERY peer a completed server handshake implies TLS >= 1.2 and a client certificate verifying against the pool (C16_server), a completed client handshake implies TLS >= 1.2 and a server certificate verifying against the root pool and host name (C16_client). The specification is validated against the real crypto/tls on every run over the entire finite peer space of the property: certificate in {none, valid, self-signed, other CA, expired, wrong host} x max version {1.0,1.1,1.2,1.3} x role + plaintext, observing callbacks, handlers, responses and bytes a rogue server receives.",
+   note="Partial by nature: crypto/tls and crypto/x509 are specified (TLS.v, 15 lines), not verified. Trusted: Coq kernel, translator (unknown statements make the theorem fail), loopback networking.",
+   technique="Coq proof over regenerated TLS defaults + acceptance spec validated against real crypto/tls on the full peer space",
+   design="3/C16"),
 }
 
 m = {
